@@ -194,7 +194,19 @@ func pointerFree(t reflect.Type) bool {
 // shape of a shared scratch buffer.
 func spareHash(v reflect.Value, depth int) uint64 {
 	n, c := v.Len(), v.Cap()
-	if c <= n || c-n > 1<<16 || !pointerFree(v.Type().Elem()) {
+	if c <= n || depth > 40 {
+		return 0
+	}
+	if !pointerFree(v.Type().Elem()) {
+		// elements that hold pointers (strings, interfaces, nested slices):
+		// appends into the spare capacity of an array that several module
+		// copies share are writes to shared memory too. Stale elements are
+		// ordinary reachable values; they are fingerprinted like live ones, but
+		// only for moderately sized regions.
+		if c-n > 64 {
+			return 0
+		}
+	} else if c-n > 1<<16 {
 		return 0
 	}
 	sp := v.Slice(0, c)
